@@ -502,7 +502,8 @@ package yqlib
 //@ func (*Context).SetVariable
 //@   props C08 C11
 //@   requires n != nil
-//@   modifies n.Variables
+//@   modifies n.Variables, n.Variables[*]
+//@   ensures @variable-set n.Variables != nil && n.Variables[name] == value
 
 //@ func (*CandidateNode).VisitValues
 //@   props C08 C15 C11
